@@ -95,6 +95,10 @@ class ValidFamily(Family):
         for fo, so, ln in itertools.product(A64, A64, A64):
             for fl in ((0, 1, 2, 3, 2**63, 2**64 - 1) if (thorough or fo in (0, 2**64 - 1)) else (0, 2)):
                 add(f"valid VhostUserMMap {hx(3,1)}{'00'*7 if fl != 3 else 'ff'*7}{hx(fo,8)}{hx(so,8)}{hx(ln,8)}{hx(fl,8)}")
+            # the padding bytes are not part of the rules: any contents, with valid and invalid flag words alike
+            for fl in (0, 1, 2, 3):
+                for pad in ("ff" * 7, "01" + "00" * 6, "00" * 6 + "80"):
+                    add(f"valid VhostUserMMap {hx(3,1)}{pad}{hx(fo,8)}{hx(so,8)}{hx(ln,8)}{hx(fl,8)}")
         # always-valid bodies
         for v in C.U64:
             add(f"valid VhostUserU64 {hx(v,8)}")
